@@ -164,12 +164,13 @@ func c08ShapeCheck(c *Ctx, cs c08ShapeCase) *Failure {
 // ---- (3) type transparency ----
 
 type c08TypedCase struct {
-	Path    string `json:"path"`    // dotted path in the fat document
-	Literal string `json:"literal"` // the typed literal as YAML text
-	Kind    string `json:"kind"`    // bool | int | float | string
-	Variant string `json:"variant"` // var | default | split | yaml11-true | yaml11-false | invalid
-	Text    string `json:"text"`    // what the variable holds
-	Dotted  bool   `json:"dotted"`  // the service and the resources carry names with a dot (`svc.v1`)
+	Path    string `json:"path"`          // dotted path in the fat document
+	Literal string `json:"literal"`       // the typed literal as YAML text
+	Kind    string `json:"kind"`          // bool | int | float | string
+	Variant string `json:"variant"`       // var | default | split | yaml11-true | yaml11-false | invalid
+	Text    string `json:"text"`          // what the variable holds
+	Dotted  bool   `json:"dotted"`        // the service and the resources carry names with a dot (`svc.v1`)
+	Via     string `json:"via,omitempty"` // "" main file | include (the document is an included file) | second-document
 }
 
 // dotNames renames the service and the top-level resources of the fat document to names containing a dot,
@@ -316,6 +317,9 @@ func c08TypedCheck(c *Ctx, cs c08TypedCase) *Failure {
 		return nil
 	}
 	c.Label("typed:" + cs.Kind + ":" + cs.Variant)
+	if cs.Via != "" {
+		c.Label("typed:via-" + cs.Via)
+	}
 	env := map[string]string{"V": cs.Text, "EMPTY": ""}
 	litDoc := fatTreeCached()
 	varDoc := fatTreeCached()
@@ -344,6 +348,23 @@ func c08TypedCheck(c *Ctx, cs c08TypedCase) *Failure {
 		dotNames(varDoc)
 	}
 	load := func(doc map[string]any) loadResult {
+		switch cs.Via {
+		case "include":
+			// the same document reached through an include: interpolation happens with the included project's options
+			lc := loadCase{Files: []memFile{{Name: "compose.yaml", Content: "include:\n  - fat.yaml\nservices:\n  front-of-include:\n    image: busybox\n    network_mode: none\n"},
+				{Name: "fat.yaml", Content: emitYAML(doc, nil)}}, Main: []string{"compose.yaml"}, Env: env, Opts: loadOpts{SkipConsistencyCheck: true}}
+			root, cleanup, err := lc.materialise()
+			if err != nil {
+				return loadResult{Err: err}
+			}
+			defer cleanup()
+			r := lc.loadAt(root, false, 0)
+			r.Project = rebaseProject(r.Project, root)
+			return r
+		case "second-document":
+			return loadCase{Files: []memFile{{Name: "compose.yaml", Content: "services:\n  front-document:\n    image: busybox\n    network_mode: none\n---\n" + emitYAML(doc, nil)}},
+				Main: []string{"compose.yaml"}, Env: env, Opts: loadOpts{SkipConsistencyCheck: true}}.loadMem()
+		}
 		return loadCase{Files: []memFile{{Name: "compose.yaml", Content: emitYAML(doc, nil)}}, Main: []string{"compose.yaml"}, Env: env, Opts: loadOpts{SkipConsistencyCheck: true}}.loadMem()
 	}
 	rv := load(varDoc)
@@ -451,6 +472,9 @@ func c08TypedCases() ([]c08TypedCase, map[string]int) {
 			out = append(out, c08TypedCase{Path: p, Literal: lit, Kind: kind, Variant: v, Text: lit})
 		}
 		out = append(out, c08TypedCase{Path: p, Literal: lit, Kind: kind, Variant: "var", Text: lit, Dotted: true})
+		out = append(out, c08TypedCase{Path: p, Literal: lit, Kind: kind, Variant: "var", Text: lit, Via: "include"})
+		out = append(out, c08TypedCase{Path: p, Literal: lit, Kind: kind, Variant: "default", Text: lit, Via: "include"})
+		out = append(out, c08TypedCase{Path: p, Literal: lit, Kind: kind, Variant: "var", Text: lit, Via: "second-document"})
 		switch kind {
 		case "bool":
 			for _, t := range []string{"yes", "on", "y", "Yes", "ON", "TRUE", "True"} {
